@@ -32,12 +32,14 @@ class Glue:
         self.lia = ses.ex.solver.lia
         self.sandwich = {}     # bool var term id -> (lo descriptor, hi descriptor)
         self.nvars = 0
+        self.exact_overflow = False
 
     def install(self, FP):
         ex = self.ex
-        ex.hooks[FP + '.eiselLemire64'] = self.h_el
-        ex.hooks['(*' + FP + '.decimal).set'] = self.h_set
-        ex.hooks['(*' + FP + '.decimal).floatBits'] = self.h_floatbits
+        if not self.exact_overflow:
+            ex.hooks[FP + '.eiselLemire64'] = self.h_el
+            ex.hooks['(*' + FP + '.decimal).set'] = self.h_set
+            ex.hooks['(*' + FP + '.decimal).floatBits'] = self.h_floatbits
         ex.hooks[FP + '.vAssertGlueValue'] = self.h_assert_value
         ex.hooks[FP + '.vGlueOverflows'] = self.h_overflows
         ex.glue = self
@@ -78,6 +80,18 @@ class Glue:
 
     def h_overflows(self, ex, st, fr, ins, args):
         cells = tuple(ex.slice_cells(st, args[0]))
+        if self.exact_overflow:
+            # tier 5: the real fallback is running; decide "literal >= 2^1024 - 2^970" exactly
+            vnum, vden, vneg, vside = self.literal_value(cells)
+            thr = (1 << 1024) - (1 << 970)
+            f = vnum >= thr * vden
+            rt = self.lia.check(st.pc, st.extras, (), raw=list(st.raw) + vside + [f])
+            rf = self.lia.check(st.pc, st.extras, (), raw=list(st.raw) + vside + [z3.Not(f)])
+            if rt == 'unsat':
+                return False
+            if rf == 'unsat':
+                return True
+            return ('RAW', f, tuple(vside))
         return self.ovf_var(cells)
 
     # float equality of two descriptors (called from Executor.floatop)
@@ -223,6 +237,33 @@ class Glue:
                     results.append((r, None))
                 if not found and not results:
                     results.append(('unsat', None))
+        elif desc.__class__ is Term:
+            # a bit pattern computed by the code itself (the fallback run for real, tier 5)
+            from .fpspec import _decompose
+            sign, efv, frac, cons = _decompose(lia, desc)
+            _, blo, bhi, _ = lia.conv(desc)
+            lo_ef, hi_ef = (blo >> 52) & 0x7FF, (bhi >> 52) & 0x7FF
+            if (bhi >> 63) != (blo >> 63) or hi_ef < lo_ef or hi_ef - lo_ef > 8:
+                lo_ef, hi_ef = 0, 0x7FF
+            base = list(st.raw) + vside + cons
+            signbad = (sign == (0 if vneg else 1))
+            cands = range(lo_ef, hi_ef + 1)
+            if hi_ef - lo_ef > 8:
+                cands = []
+                seen = []
+                while len(seen) < 8:
+                    r0 = lia.check(st.pc, st.extras, (), raw=base + [efv != x for x in seen])
+                    if r0 != 'sat':
+                        if r0 == 'unknown':
+                            results.append(('unknown', None))
+                        break
+                    seen.append(lia.last_model.eval(efv, model_completion=True).as_long())
+                cands = seen
+            for ef in cands:
+                r = lia.check(st.pc, st.extras, (), raw=base + [efv == ef, z3.Or(signbad, wrong_formula_q(vnum, vden, ef, frac))])
+                results.append((r, {'assign': lia.model_assign()} if r == 'sat' else None))
+            if not results:
+                results.append(('unsat', None))
         else:
             # a concrete float (e.g. 0 for mantissa 0): judge with the concrete R-ROUND
             from .fpspec import wrong_formula_q as wq
